@@ -7,6 +7,7 @@ import (
 	"fmt"
 	"io"
 	"net"
+	"strings"
 	"sync"
 	"syscall"
 	"time"
@@ -96,6 +97,8 @@ type Conn struct {
 	Cursor     int  // script-side read cursor into Frames
 	FirstWrite time.Duration
 	Dial       *DialRec
+	CreatedAt  time.Duration
+	DualStack  bool            // accepted on a dual-stack wildcard listener ([::]): IPv4 addresses appear IPv4-mapped
 	Tainted    bool            // the remote (or the plugin) misbehaved on this connection
 	RecvTimes  []time.Duration // completion times of deliveries
 	ownerTask  string          // task that made the first write (the FSM that owns the conn)
@@ -259,8 +262,29 @@ func (c *Conn) Close() error {
 	return nil
 }
 
-func (c *Conn) LocalAddr() net.Addr              { return c.LAddr }
-func (c *Conn) RemoteAddr() net.Addr             { return c.RAddr }
+// LocalAddr / RemoteAddr return real *net.TCPAddr values, shaped like the ones
+// the net package produces: a 4-byte IP for an IPv4 socket, a 16-byte
+// (IPv4-mapped) IP for an IPv4 connection accepted on a dual-stack wildcard
+// listener.
+func (c *Conn) LocalAddr() net.Addr  { return c.tcpAddr(c.LAddr) }
+func (c *Conn) RemoteAddr() net.Addr { return c.tcpAddr(c.RAddr) }
+
+func (c *Conn) tcpAddr(a Addr) net.Addr {
+	h, ps, err := net.SplitHostPort(string(a))
+	if err != nil {
+		return a
+	}
+	ip := net.ParseIP(h)
+	if ip == nil {
+		return a
+	}
+	if v4 := ip.To4(); v4 != nil && !c.DualStack && !strings.Contains(h, ":") {
+		ip = v4
+	}
+	port := 0
+	fmt.Sscanf(ps, "%d", &port)
+	return &net.TCPAddr{IP: ip, Port: port}
+}
 func (c *Conn) SetDeadline(time.Time) error      { return nil }
 func (c *Conn) SetReadDeadline(time.Time) error  { return nil }
 func (c *Conn) SetWriteDeadline(time.Time) error { return nil }
@@ -676,7 +700,7 @@ func newNet(w *World) *Net {
 
 func (n *Net) newConn(inbound bool, l, r Addr, s *Site) *Conn {
 	n.mu.Lock()
-	c := &Conn{w: n.w, ID: len(n.Conns), Inbound: inbound, LAddr: l, RAddr: r, Site: s}
+	c := &Conn{w: n.w, ID: len(n.Conns), Inbound: inbound, LAddr: l, RAddr: r, Site: s, CreatedAt: n.w.Now()}
 	n.Conns = append(n.Conns, c)
 	if s != nil {
 		s.Conns = append(s.Conns, c)
@@ -712,6 +736,7 @@ func (n *Net) DialIn(l *Listener, s *Site, srcIP, dstIP string) *Conn {
 	p := n.port()
 	n.mu.Unlock()
 	c := n.newConn(true, Addr(net.JoinHostPort(dstIP, "179")), Addr(net.JoinHostPort(srcIP, fmt.Sprint(p))), s)
+	c.DualStack = l.A.Host() == "::"
 	n.w.Ev("remote %s dials in -> %s via listener %d", srcIP, c, l.ID)
 	l.mu.Lock()
 	l.q = append(l.q, c)
